@@ -255,6 +255,29 @@ pub fn check(c: &Case) -> Outcome {
                     }
                 }
             } else {
+                // exact form for the implicit methods at the initial call: the run in which the callback returns
+                // ModifiedSolution with the state untouched goes through the same start as the one that doubles it, and with
+                // atol = 0, a linear homogeneous problem and the analytic Jacobian every quantity the solver forms from the
+                // written state scales by the exact factor 2 (error and Newton norms are relative to the state): same steps
+                // bit for bit, states exactly doubled.  (At a later callback the Newton starting values are extrapolated from
+                // the previous step's polynomial, which belongs to the state before the callback: only tolerance-level there.)
+                if c.analytic_jac && k == 0 {
+                    if let Ok(h1) = run_hist(c, &prob, atol, vec![(k, Act::Modify(1.0))]) {
+                        if h1.status != h.status || h1.recs.len() != h.recs.len() {
+                            return Outcome::viol(format!("{}: doubling the state at callback {} instead of leaving it unchanged (ModifiedSolution both times) changed the step sequence: {} callbacks/{} vs {}/{}", name, k, h.recs.len(), status_name(h.status), h1.recs.len(), status_name(h1.status)));
+                        }
+                        for j in 0..h.recs.len() {
+                            let (a, b) = (&h.recs[j], &h1.recs[j]);
+                            let want: Vec<f64> = if j > k { b.y.iter().map(|v| 2.0 * v).collect() } else { b.y.clone() };
+                            if a.x.to_bits() != b.x.to_bits() || !bits_eq(&a.y, &want) {
+                                return Outcome::viol(format!(
+                                    "{}: after doubling the state at callback {} callback {} is not exactly {} the run whose callback returned ModifiedSolution with the state unchanged (x {:e} vs {:e}; max |y - expected| = {:e})",
+                                    name, k, j, if j > k { "twice" } else { "equal to" }, a.x, b.x, max_abs_diff(&a.y, &want)
+                                ));
+                            }
+                        }
+                    }
+                }
                 if h.status != Status::Success {
                     return Outcome::triv(format!("implicit-double-status:{}", status_name(h.status)));
                 }
@@ -333,7 +356,7 @@ pub fn run(ctx: &Ctx, known: &[Known]) -> Report {
     let stats = run_generated(ctx, "C19", "gen", &strategy, &check, cases, known);
     Report {
         id: "C19".into(),
-        rule: "histories = one of the six low-level solvers driven directly with a recording SolOut on a closed-form problem (both directions, tolerances 1e-3..1e-8, optional first_step/max_step, analytic or FD Jacobian), first undisturbed, then with a scripted callback: Interrupt at a generated callback index (0 = initial call), ModifiedSolution with an untouched state at 1..4 generated indices, or doubling of the state at one index (independent real linear modes, atol = 0), or XOut answers (generated abscissae at generated callbacks, or equidistant printing) with the solver's dense_output flag default/true/false, compared with the Continue run (same steps bit for bit, interpolants valid at both ends and identical inside). Non-trivial = a non-Continue flag returned at a callback index >= 1. Distinct = distinct canonical JSON.".into(),
+        rule: "histories = one of the six low-level solvers driven directly with a recording SolOut on a closed-form problem (both directions, tolerances 1e-3..1e-8, optional first_step/max_step, analytic or FD Jacobian), first undisturbed, then with a scripted callback: Interrupt at a generated callback index (0 = initial call), ModifiedSolution with an untouched state at 1..4 generated indices, or doubling of the state at one index (independent real linear modes, atol = 0; explicit methods: exactly twice the undisturbed run; Radau / BDF: to tolerance twice the exact solution, and, with the analytic Jacobian and the doubling at the initial call, exactly twice the run whose initial callback returns ModifiedSolution with the state unchanged), or XOut answers (generated abscissae at generated callbacks, or equidistant printing) with the solver's dense_output flag default/true/false, compared with the Continue run (same steps bit for bit, interpolants valid at both ends and identical inside). Non-trivial = a non-Continue flag returned at a callback index >= 1. Distinct = distinct canonical JSON.".into(),
         assumptions: vec![
             "interpolant end-point agreement to 1e-10*(1+|y|)".into(),
             "BDF restarts its history on ModifiedSolution (documented): only agreement with the exact solution is required for BDF no-op, and for Radau/BDF doubling".into(),
